@@ -93,7 +93,7 @@ struct Model {
 };
 
 std::atomic<uint64_t> g_multi_ref{0}, g_tried{0}, g_collision_pending{0}, g_collision_replaced{0}, g_collision_kept{0}, g_new_overwrite{0}, g_third_party_deleted{0}, g_reload_ops{0},
-    g_reload_probes{0}, g_select_hits{0}, g_select_empty{0}, g_terrible_filtered{0}, g_evicted_to_new{0}, g_add_rejected_collision{0}, g_asmap_reloads{0}, g_asmap_lost{0}, g_net_seen[NET_MAX + 1], g_stc_hit{0}, g_refcount_ge3{0};
+    g_reload_probes{0}, g_select_hits{0}, g_select_empty{0}, g_terrible_filtered{0}, g_evicted_to_new{0}, g_add_rejected_collision{0}, g_asmap_reloads{0}, g_asmap_lost{0}, g_net_seen[NET_MAX + 1], g_stc_hit{0}, g_refcount_ge3{0}, g_cross_net_evict[3];
 
 struct Snap { // table view from the public GetEntries()
     std::map<int, int> new_slots, tried_slots;
@@ -429,7 +429,14 @@ bool replay_impl(const std::string& hist, std::string* key, bool probe)
             if (chk) {
                 Snap after = quick_view(*am);
                 bool replaced = false;
-                for (auto& [j, c] : before.tried_slots) if (!after.tried_slots.count(j)) { replaced = true; g_evicted_to_new += after.new_slots.count(j) ? 1 : 0; }
+                for (auto& [j, c] : before.tried_slots) if (!after.tried_slots.count(j)) {
+                    replaced = true;
+                    g_evicted_to_new += after.new_slots.count(j) ? 1 : 0;
+                    for (auto& [k, c2] : after.tried_slots) if (!before.tried_slots.count(k) && U[k].svc.GetNetwork() != U[j].svc.GetNetwork()) {
+                        Network in = U[k].svc.GetNetwork(), out = U[j].svc.GetNetwork();
+                        g_cross_net_evict[out == NET_IPV4 ? 0 : in == NET_IPV4 && out == NET_IPV6 ? 1 : 2]++;
+                    }
+                }
                 if (replaced) g_collision_replaced++;
                 else if (pending) g_collision_kept++;
                 for (auto& [j, c] : before.new_slots) if (!after.new_slots.count(j) && !after.tried_slots.count(j)) g_third_party_deleted++;
@@ -523,6 +530,44 @@ bool search(const CNetAddr& S1, Found& f)
     return false;
 }
 
+// Cross-network tried collisions: an address of another network (IPv6 / Tor v3) that shares its tried slot with an
+// IPv4 address out of 250.2.0.0/16 .. 250.61.0.0/16 (one /16 only reaches 8 of the 256 tried buckets).
+std::pair<int, int> tried_slot(const CService& s, const NetGroupManager& ngm)
+{
+    AddrInfo info{CAddress{s, NODE_NONE}, SRC[0]};
+    int b = info.GetTriedBucket(uint256{1}, ngm);
+    return {b, info.GetBucketPosition(uint256{1}, false, b)};
+}
+bool find_cross(uint8_t bip155_net, size_t len, unsigned char tag, const std::vector<CService>& taken, CService& ipv4_out, CService& other_out)
+{
+    static std::map<std::pair<int, int>, CService> by_slot;
+    if (by_slot.empty())
+        for (uint32_t g = 2; g < 62; g++) // 60 netgroups x 500 hosts: covers most of the 256 x 64 tried slots
+            for (uint32_t lo = 1; lo <= 500; lo++) { CService s = ipv4((250u << 24) | (g << 16) | lo); by_slot.emplace(tried_slot(s, *NGM), s); }
+    for (unsigned k = 1; k < 5000; k++) {
+        std::vector<unsigned char> b(len, tag);
+        if (bip155_net == 2) { b[0] = 0x2a; b[1] = 0x01; b[2] = 0x04; b[3] = 0xf8; }
+        b[len - 1] = (unsigned char)k; b[len - 2] = (unsigned char)(k >> 8);
+        CService other{bip155(bip155_net, b), 8333};
+        if (!other.IsRoutable()) continue;
+        auto it = by_slot.find(tried_slot(other, *NGM));
+        if (it == by_slot.end()) continue;
+        // neither may share a tried slot with an address chosen earlier, with or without the test asmap
+        bool clash = false;
+        for (const NetGroupManager* ngm : {NGM.get(), NGM_ASMAP.get()})
+            for (auto& t : taken)
+                for (const CService* c : {&it->second, &other}) clash |= (tried_slot(*c, *ngm) == tried_slot(t, *ngm));
+        if (clash || it->second == other) continue;
+        bool used = false;
+        for (auto& t : taken) used |= (t == it->second);
+        if (used) continue;
+        ipv4_out = it->second;
+        other_out = other;
+        return true;
+    }
+    return false;
+}
+
 struct Config { std::string name; std::vector<UAddr> u; std::vector<Op> ops; int depth; };
 
 void add_ops_for(std::vector<Op>& ops, int a, bool rich)
@@ -582,15 +627,44 @@ int run()
     for (auto* u : {&X, &Y, &Z, &Z2, &T, &I, &C, &V6}) if (!u->svc.IsRoutable()) { printf("HARNESS-ERROR %s is not routable\n", u->name.c_str()); return 2; }
     if (C.svc.GetNetwork() != NET_CJDNS || T.svc.GetNetwork() != NET_ONION || I.svc.GetNetwork() != NET_I2P || V6.svc.GetNetwork() != NET_IPV6) { printf("HARNESS-ERROR network classes of the universe are wrong\n"); return 2; }
 
-    {   // under the foreign asmap no two universe addresses may share a tried slot (the reload probe relies on it)
-        std::set<std::pair<int, int>> slots;
-        for (auto* u : {&X, &Y, &Z, &Z2, &T, &I, &C, &V6}) {
-            AddrInfo info{CAddress{u->svc, NODE_NONE}, SRC[0]};
-            int b = info.GetTriedBucket(uint256{1}, *NGM_ASMAP);
-            if (!slots.insert({b, info.GetBucketPosition(uint256{1}, false, b)}).second) { printf("HARNESS-ERROR universe addresses collide in tried under the test asmap\n"); return 2; }
-        }
+    UAddr P4, Q6, R4, O3;
+    {
+        std::vector<CService> taken{X.svc, Y.svc, Z.svc, Z2.svc, T.svc, I.svc, C.svc, V6.svc};
+        CService a, b;
+        if (!find_cross(2, 16, 0x33, taken, a, b)) { printf("HARNESS-ERROR no IPv4/IPv6 tried collision found\n"); return 2; }
+        P4 = UAddr{a, "P4"}; Q6 = UAddr{b, "Q6(IPv6,tried-collides-with-P4)"};
+        taken.push_back(a); taken.push_back(b);
+        if (!find_cross(4, 32, 0x44, taken, a, b)) { printf("HARNESS-ERROR no IPv4/onion tried collision found\n"); return 2; }
+        R4 = UAddr{a, "R4"}; O3 = UAddr{b, "Onion(tried-collides-with-R4)"};
+        if (Q6.svc.GetNetwork() != NET_IPV6 || O3.svc.GetNetwork() != NET_ONION || P4.svc.GetNetwork() != NET_IPV4 || R4.svc.GetNetwork() != NET_IPV4) { printf("HARNESS-ERROR cross-network universe has wrong network classes\n"); return 2; }
+        if (tried_slot(P4.svc, *NGM) != tried_slot(Q6.svc, *NGM) || tried_slot(R4.svc, *NGM) != tried_slot(O3.svc, *NGM)) { printf("HARNESS-ERROR cross-network pairs do not collide\n"); return 2; }
+    }
+    {   // under the foreign asmap no two universe addresses may share a tried slot (the reload probe relies on it),
+        // except the designated pairs, which are never in the tried table together
+        std::vector<const UAddr*> all{&X, &Y, &Z, &Z2, &T, &I, &C, &V6, &P4, &Q6, &R4, &O3};
+        for (size_t i = 0; i < all.size(); i++)
+            for (size_t j = i + 1; j < all.size(); j++) {
+                bool pair = (all[i] == &X && all[j] == &Y) || (all[i] == &P4 && all[j] == &Q6) || (all[i] == &R4 && all[j] == &O3);
+                if (!pair && tried_slot(all[i]->svc, *NGM_ASMAP) == tried_slot(all[j]->svc, *NGM_ASMAP)) { printf("HARNESS-ERROR universe addresses collide in tried under the test asmap\n"); return 2; }
+            }
     }
     std::vector<Config> cfgs;
+    {   // C: tried-table evictions that cross networks (IPv4 <-> IPv6, IPv4 <-> Tor): per-network counters
+        Config c;
+        c.name = "crossnet";
+        c.u = {P4, Q6, R4, O3};
+        for (int a = 0; a < 4; a++) {
+            c.ops.push_back(Op{ADD, a, 0, 0, 0, -1});
+            c.ops.push_back(Op{GOOD, a, 0, -5 * 3600}); // old enough to be replaced / to replace without a test
+            c.ops.push_back(Op{GOOD, a, 0, 0});
+        }
+        { Op o{ATTEMPT, 0, 0, -2 * 3600}; o.flag = true; c.ops.push_back(o); }
+        c.ops.push_back(Op{RESOLVE});
+        c.ops.push_back(Op{STC, 0, 0, 0, 0, 0});
+        c.ops.push_back(Op{RELOAD});
+        c.depth = big ? 7 : 6;
+        cfgs.push_back(c);
+    }
     // A: tried collisions, test-before-evict, eviction back to new, deletion of the third party
     auto collisions = [&](const std::string& name, std::vector<UAddr> u, int depth) {
         Config c;
@@ -744,6 +818,7 @@ int run()
         {"new-table entry overwritten by Add", g_new_overwrite, true}, {"Add rejected because the slot is occupied", g_add_rejected_collision, true},
         {"RELOAD operations", g_reload_ops, true}, {"round-trip probes", g_reload_probes, true}, {"foreign-asmap reloads", g_asmap_reloads, true}, {"foreign-asmap reload dropped new entries", g_asmap_lost, false},
         {"Select returned an address", g_select_hits, true}, {"Select returned nothing", g_select_empty, true}, {"GetAddr filtered out a terrible entry", g_terrible_filtered, true}, {"SelectTriedCollision returned an address", g_stc_hit, true},
+        {"tried eviction: IPv4 entry replaced by an entry of another network", g_cross_net_evict[0], true}, {"tried eviction: IPv6 entry replaced by an IPv4 entry", g_cross_net_evict[1], true}, {"tried eviction: Tor entry replaced by an IPv4 entry", g_cross_net_evict[2], true},
         {"onion stored", g_net_seen[NET_ONION], true}, {"cjdns stored", g_net_seen[NET_CJDNS], true}, {"i2p stored", g_net_seen[NET_I2P], big}, {"ipv6 stored", g_net_seen[NET_IPV6], big}};
     for (auto& g : gates) E.set(std::string("n: ") + g.n, g.v);
     E.rule = "one BFS per configuration (see <config>_universe, _operations_in_alphabet, _max_depth_completed): all histories of {Add (3-4 nTime/penalty variants, 2 sources, both outcomes of the stochastic extra-bucket draw), Good(time NOW / NOW-5h), Attempt, Connected, SetServices, ResolveCollisions, SelectTriedCollision, serialize+Unserialize and continue} at a fixed mock time; "
